@@ -16,7 +16,7 @@ CLAIMED = {
     "C02": ("error/emission discipline behind 'emitted solutions satisfy every hard constraint': every evaluator yield lies behind the "
             "acceptance test, raising evaluations record failures on all handler paths (evaluator and constraint level) and cannot shrink the divisor, every value the "
             "COMPLETE-mode pipeline yields originates from an evaluator yield, padding only under best_effort; in exact rational arithmetic the "
-            "threshold operand is a convex combination of the class means with positive weights; a comparison that does not hold never scores 1.0 in float arithmetic; quantifier bindings (scope, local variables) are forwarded to every constraint / search method that takes them, replaced nodes keep their repetition tags, selector errors are never turned into 'no match', cli commands consume the constraint options with and without -f",
+            "threshold operand is a convex combination of the class means with positive weights; a comparison that does not hold never scores 1.0 in float arithmetic; quantifier bindings (scope, local variables) are forwarded to every constraint / search method that takes them, replaced nodes keep their repetition tags, selector errors are never turned into 'no match', cli commands consume the constraint options with and without -f, constraints are evaluated in one namespace in which the variables bound for the evaluation override the spec's globals",
             "CFG path queries (must-pass-through, handler-to-backedge), accumulator classification, emission-provenance fixpoint over generators, "
             "rational and closed-interval abstract interpretation", "§3/C02, §9.2"),
     "C03": ("decides the property's arithmetic clause for all (h, r) at once: under 'every per-constraint fitness is 1.0' the value compared "
@@ -76,7 +76,7 @@ CLAIMED = {
             "the equivalence with the message language itself is not decided",
             "visitor exhaustiveness + stack-depth dataflow over the CFG + canonical-form comparison of bound tests + branch/return shape checks", "§5, §9.2"),
     "C20": ("partial: lock discipline on the receive buffer, thread-side effects append-only, atomic in-order queuing, acceptance discipline "
-            "of _generate_io, the recorded history is sealed before a packet is mounted on it, the buffer is trimmed to the accepted parse's own fragment index, the fragment scanner returns positions of the buffer it was given, a re-parsed history is adopted only if type, sender and recipient of every message agree, per-message state of the protocol evaluator is emptied when the next message starts, grammar nodes are removed by identity when the protocol is cut down to parties",
+            "of _generate_io, the recorded history is sealed before a packet is mounted on it, the buffer is trimmed to the accepted parse's own fragment index, the fragment scanner is given the receive buffer position by position and returns positions of it, a re-parsed history is adopted only if type, sender and recipient of every message agree, per-message state of the protocol evaluator is emptied on every path when the next message starts, grammar nodes are removed by identity when the protocol is cut down to parties",
             "AST region check + call-graph reachability from thread entries + CFG path queries + def-use provenance", "§3/C20, §9.2"),
 }
 
